@@ -136,7 +136,7 @@ def main():
         try:
             if replay:
                 doc = json.load(open(replay, encoding="utf-8"))
-                if doc["case"].endswith(("/respelled", "/collided")) or doc["case"] == "doc-corpus":
+                if doc["case"].endswith(("/respelled", "/collided", "/as-module")) or doc["case"] == "doc-corpus":
                     cases = [C.Case(doc["case"], doc["requests"], getattr(mod, "default_compare", C.compare_run))]
                 else:
                     cases = [mod.case_from_replay(doc) if hasattr(mod, "case_from_replay") else C.Case(doc["case"], doc["requests"], mod.default_compare)]
@@ -160,7 +160,12 @@ def main():
                 import doccorpus
                 dc = doccorpus.cases()
                 stats["doc_corpus_programs"] = len(dc)
-                cases += twins + dc
+                # module twins (tools/modtwin.py): the same programs run as an imported module (qualified names, file boundary)
+                import modtwin
+                mt = modtwin.variants(cases, 1500 if tier == "thorough" else 150, root,
+                                      skip_names={k.get("case") for k in C.load_known() if k.get("status") == "known"})
+                stats["module_twins"] = len(mt)
+                cases += twins + dc + mt
             results = C.run_cases(cases, root)
             if hasattr(mod, "extra_checks"):
                 for kind, name, text, info in mod.extra_checks(rng, tier, stats, root):
